@@ -7,6 +7,9 @@ import vlib
 import gen_c08_decls as G
 
 LEVEL = 'proof'
+# broken-tie observations (model != implementation while c2m == gcc): reported only when the whole run
+# found no concrete input on which the property itself fails
+DEFERRED = []
 WORK = os.path.join(vlib.BUILD, 'c08')
 
 
@@ -113,8 +116,8 @@ class Tools:
             args = []
             for j in range(len(G.PRE_ARGS)):
                 ps = sigs.get('arg%d_%d' % (i, j))
-                mm = re.match(r'(blk\d:\d+)\(', ps[-1]) if ps else None
-                args.append(mm.group(1) if mm else None)
+                mms = [re.match(r'(blk\d:\d+)\(', x) for x in ps[-3:]] if ps and len(ps) >= 3 else [None]
+                args.append('+'.join(m.group(1) for m in mms) if all(mms) else None)
             r['c2m_args'] = args
             mc, ms = om[i].split('|')
             kv = dict(x.split('=') for x in mc.split()[1:])
@@ -125,13 +128,54 @@ class Tools:
         return res
 
 
+    # --- by-value passing at run time, both directions, interpreter and generator
+    def passing(self, decls, modes=('-ei', '-eg')):
+        """returns {mode: {(i, dir): 'ok'|'BAD'}} plus stderr info; dir in a r A R (see gen pass_tus)"""
+        d = self.path('pass')
+        os.makedirs(d)
+        lib, main = G.pass_tus(list(enumerate(decls)))
+        open(os.path.join(d, 'lib.c'), 'w').write(lib)
+        open(os.path.join(d, 'main.c'), 'w').write(main)
+        rc, out, err = vlib.sh(['gcc', '-w', '-O1', '-std=gnu11', '-shared', '-fPIC', os.path.join(d, 'lib.c'), '-o',
+                                os.path.join(d, 'libc08p.so')], timeout=900)
+        if rc != 0:
+            raise vlib.BuildError('gcc failed on the passing library: ' + err[-800:])
+        res = {}
+        info = {}
+        for mode in modes:
+            rc, out, err = vlib.sh([self.c2m, os.path.join(d, 'main.c'), '-L' + d, '-lc08p', mode], timeout=900, cwd=d)
+            r = {}
+            for l in out.split('\n'):
+                w = l.split()
+                if len(w) == 4 and w[0] == 'P':
+                    r[(int(w[1]), w[2])] = w[3]
+            res[mode] = r
+            info[mode] = 'rc=%d %s' % (rc, err[-300:])
+        shutil.rmtree(d, ignore_errors=True)
+        return res, info
+
+    def model_classes(self, decls):
+        pres = ' '.join('%d,%d' % p for p in G.PRE_ARGS)
+        rcm, om, em = vlib.run_lines(self.model, ['K %s | %s' % (pres, G.ty_text(t)) for t in decls])
+        if rcm != 0 or len(om) != len(decls):
+            raise vlib.BuildError('model driver failed: rc=%d %s' % (rcm, em[-500:]))
+        return [dict(x.split('=') for x in o.split('|')[1].split()) for o in om]
+
+
 def blk_letters(b):
-    """'blk3:16' -> 'IS' : the registers a MIR block type travels in"""
+    """'blk3:16' -> 'IS' : the registers a MIR block type travels in; 'blk1:8+blk2:8' -> 'I+S'"""
     if b is None:
         return None
-    k, size = int(b[3]), int(b.split(':')[1])
-    nq = (size + 7) // 8
-    return {0: 'M', 1: 'I' * nq, 2: 'S' * nq, 3: 'IS', 4: 'SI'}[k]
+    out = []
+    for x in b.split('+'):
+        k, size = int(x[3]), int(x.split(':')[1])
+        nq = (size + 7) // 8
+        out.append({0: 'M', 1: 'I' * nq, 2: 'S' * nq, 3: 'IS', 4: 'SI'}[k])
+    return '+'.join(out)
+
+
+def first(x):
+    return None if x is None else x.split('+')[0]
 
 
 def has_union_unnamed_bf(t):
@@ -156,15 +200,15 @@ def kverdict(t, r):
         return 'spy-unreadable'
     if r['c2m_ret'] is None or None in r['c2m_args']:
         return 'c2m-fails'
-    if 'n' in r['ms_args'][0]:
+    if 'n' in first(r['ms_args'][0]):
         return 'padding-eightbyte'      # an eightbyte of nothing but padding: known c2m deviation
     if has_union_unnamed_bf(t):
         return 'gcc-union-unnamed-bf'   # gcc deviates from the psABI text; not compared
-    if blk_letters(r['c2m_args'][0]) != r['gcc_arg'].upper() or not ret_same(r['gcc_ret'], r['c2m_ret']):
+    if first(blk_letters(r['c2m_args'][0])) != r['gcc_arg'].upper() or not ret_same(r['gcc_ret'], r['c2m_ret']):
         return 'abi-mismatch'
     if r['c2m_ret'] != r['mc_ret'] or r['c2m_args'] != r['mc_args']:
         return 'model-c2m'
-    if r['gcc_arg'].upper() != r['ms_args'][0].upper() or not ret_same(r['gcc_ret'], r['ms_ret']):
+    if r['gcc_arg'].upper() != first(r['ms_args'][0]).upper() or not ret_same(r['gcc_ret'], r['ms_ret']):
         return 'model-sysv'
     if [blk_letters(b) for b in r['mc_args']] != r['ms_args'] or r['mc_ret'] != r['ms_ret']:
         return 'models-differ'          # the two Coq models disagree (register exhaustion cases)
@@ -257,10 +301,10 @@ def layout_part(chk, tools, decls, label):
             elif v == 'c2m-fails':
                 real += 1
                 chk.finding('c2m-fails:' + txt, obj, 'c2m fails on a declaration gcc accepts: %s (%s)' % (txt, inf['c2m_err'][-200:]))
-            elif v == 'model-c2m' and not real:
-                chk.finding('tie:model-c2m', obj, 'c2m agrees with gcc but no longer with its Coq model (tie broken) on: ' + txt, no_input=True)
-            elif v == 'model-sysv' and not real:
-                chk.finding('tie:model-sysv', obj, 'gcc no longer agrees with the SysV model on: ' + txt, no_input=True)
+            elif v == 'model-c2m':
+                DEFERRED.append(('tie:model-c2m', obj, 'c2m agrees with gcc but no longer with its Coq layout model (tie broken) on: ' + txt))
+            elif v == 'model-sysv':
+                DEFERRED.append(('tie:model-sysv', obj, 'gcc no longer agrees with the SysV layout model on: ' + txt))
     return bad
 
 
@@ -304,16 +348,67 @@ def classify_part(chk, tools, decls, label):
             if v == 'abi-mismatch':
                 real += 1
                 chk.finding('classify:' + txt, obj, 'c2m and gcc pass/return this aggregate differently: %s  c2m[arg %s ret %s] gcc[arg %s ret %s]' % (
-                    txt, blk_letters(rr['c2m_args'][0]), rr['c2m_ret'], rr['gcc_arg'], rr['gcc_ret']))
+                    txt, first(blk_letters(rr['c2m_args'][0])), rr['c2m_ret'], rr['gcc_arg'], rr['gcc_ret']))
             elif v == 'c2m-fails':
                 real += 1
                 chk.finding('c2m-fails:' + txt, obj, 'c2m fails on functions passing %s (%s)' % (txt, rr['c2m_err'][-200:]))
             elif v == 'spy-unreadable':
                 chk.finding('harness:spy', obj, 'the register spy could not read how gcc passes ' + txt, no_input=True)
-            elif not real:
-                chk.finding('tie:' + v, obj, {'model-c2m': 'c2m agrees with gcc but no longer with its Coq classification model on: ',
-                                             'model-sysv': 'gcc no longer agrees with the SysV classification model on: ',
-                                             'models-differ': 'the c2mir and SysV classification models differ on: '}[v] + txt, no_input=True)
+            else:
+                DEFERRED.append(('tie:' + v, obj, {'model-c2m': 'c2m agrees with gcc but no longer with its Coq classification model on: ',
+                                                   'model-sysv': 'gcc no longer agrees with the SysV classification model on: ',
+                                                   'models-differ': 'the c2mir and SysV classification models differ on: '}[v] + txt))
+    return bad
+
+
+def pass_failures(tools, decls, modes=('-ei', '-eg')):
+    res, info = tools.passing(decls, modes)
+    bad = []
+    for mode in modes:
+        for i in range(len(decls)):
+            for d in 'arAR':
+                if res[mode].get((i, d)) != 'ok':
+                    bad.append((i, mode, d, res[mode].get((i, d), 'missing')))
+    return bad, info
+
+
+def passing_part(chk, tools, decls, label, modes=('-ei', '-eg')):
+    # aggregates the classification comparison does not cover are not passed either
+    ms = tools.model_classes(decls)
+    use = []
+    for t, m in zip(decls, ms):
+        if 'n' in m['args'].split(';')[0].split('+')[0]:
+            chk.dist('passing_excluded', 'padding-eightbyte')
+        elif has_union_unnamed_bf(t):
+            chk.dist('passing_excluded', 'gcc-union-unnamed-bf')
+        else:
+            use.append(t)
+    bad, info = pass_failures(tools, use, modes)
+    for t in use:
+        chk.count('P ' + G.ty_text(t), nontrivial=True, n=4 * len(modes))
+    chk.dist('passing_runs', 'ok', 4 * len(modes) * len(use) - len(bad))
+    chk.dist('passing_runs', 'BAD', len(bad))
+    chk.log('%s: %d aggregates x 4 directions x %s: %s' % (label, len(use), '/'.join(modes), '%d failures' % len(bad) if bad else 'all intact'))
+    seen = set()
+    for i, mode, d, what in bad[:4]:
+        t = use[i]
+        pos = i % len(G.PRE_ARGS)
+
+        def fails(c):
+            if not G.passable(c):
+                return False
+            # keep the same register-exhaustion prefix: the declaration must stay at the same index modulo
+            b, _ = pass_failures(tools, [('b', 'char')] * 0 + [c] * (pos + 1), (mode,))
+            return any(x[0] == pos for x in b)
+        small = G.shrink(t, fails, max_steps=60)
+        txt = G.ty_text(small)
+        if txt in seen:
+            continue
+        seen.add(txt)
+        chk.finding('passing:%s' % txt, dict(kind='passing', decl=txt, original=G.ty_text(t), mode=mode, direction=d, what=what,
+                                             prefix=list(G.PRE_ARGS[pos]), index=pos, info=info),
+                    'aggregate does not arrive intact between c2m (%s) and gcc code, direction %s (a/r: c2m caller, A/R: gcc caller; '
+                    'prefix %d longs %d doubles): %s' % (mode, d, G.PRE_ARGS[pos][0], G.PRE_ARGS[pos][1], txt))
     return bad
 
 
@@ -326,7 +421,7 @@ def padding_witness(chk, tools):
     t = G.parse_text(PADDING_WITNESS)
     r = tools.classify([t])[0]
     chk.count('K ' + PADDING_WITNESS)
-    if r['gcc_arg'] and r['c2m_args'][0] and blk_letters(r['c2m_args'][0]) != r['gcc_arg'].upper():
+    if r['gcc_arg'] and r['c2m_args'][0] and first(blk_letters(r['c2m_args'][0])) != r['gcc_arg'].upper():
         chk.finding('classify:padding-eightbyte', dict(kind='classify', decl=PADDING_WITNESS, **r),
                     'an eightbyte of padding only gets an INTEGER register from c2m and none from gcc: ' + PADDING_WITNESS)
 
@@ -361,13 +456,21 @@ def run(chk):
                 for t in ds[:3]:
                     chk.sample('K ' + G.ty_text(t)[:300])
             classify_part(chk, tools, ds, 'classify batch %d' % b)
+        pb, pper = (1, 180) if quick else (12, 400)
+        for b in range(pb):
+            passing_part(chk, tools, gen_small(chk, pper, 'passing%d' % b), 'passing batch %d' % b)
         chk.cov['rule'] = ('each generated declaration is compiled into one probe TU run by c2m (-ei) and by gcc; sizeof, '
                            '_Alignof, every named member offset/size and every bit-field position (found by storing all-ones '
                            'into a zeroed object) are compared with the extracted Coq models (c2mir model vs c2m, SysV model vs gcc) '
                            'and with each other; non-trivial = at least 4 AST nodes; distinct by declaration text.  Classification: '
                            'how gcc passes/returns each small aggregate is read from the registers by an assembly spy (harness/c08_spy.S), '
                            'how c2m does from the MIR signatures of c2m -S (with 7 different register-exhaustion prefixes), both compared '
-                           'with the extracted c2mir and SysV classification models')
+                           'with the extracted c2mir and SysV classification models.  Passing: every small aggregate is passed and '
+                           'returned by value in all four caller/callee combinations of c2m code (-ei and -eg) and a gcc-compiled shared '
+                           'library, after 0..7 scalar arguments and followed by two one-register structs, with a checksum of its non-padding bits')
+        if not chk.violations:
+            for sig, obj, what in DEFERRED[:3]:
+                chk.finding(sig, obj, what, no_input=True)
         if not r['ok'] and not chk.violations:
             chk.proof_broken(r, searched='all generated declarations agreed between c2m, gcc and the models')
     finally:
@@ -398,6 +501,14 @@ def replay(chk, path):
             v = kverdict(t, r)
             print('verdict:', v)
             return 0 if v == 'ok' else 1
+        if rp.get('kind') == 'passing':
+            t = G.parse_text(rp['decl'])
+            pos = rp.get('index', 0)
+            b, info = pass_failures(tools, [t] * (pos + 1))
+            b = [x for x in b if x[0] == pos]
+            print('decl :', rp['decl'], ' prefix', rp.get('prefix'))
+            print('failures (index, mode, direction, what):', b or 'none')
+            return 1 if b else 0
         print('nothing to replay in', path)
         return 1
     finally:
